@@ -1049,6 +1049,12 @@ func (c *fnCFG) loopEdge(b, s *cfg.Block) (string, ast.Stmt) {
 			}
 			return "back", s.Stmt
 		}
+	case cfg.KindForBody:
+		// `for { … }` without condition and post statement has no head block: the back edge
+		// goes to the body block itself
+		if fs, ok := s.Stmt.(*ast.ForStmt); ok && fs.Cond == nil && fs.Post == nil && c.bodyOf(s.Stmt)[b.Index] {
+			return "back", s.Stmt
+		}
 	case cfg.KindRangeDone, cfg.KindForDone:
 		if c.bodyOf(s.Stmt)[b.Index] {
 			return "break", s.Stmt
